@@ -361,6 +361,17 @@ pub fn train_spec(max_templates: usize, with_user: bool) -> BoxedStrategy<TrainS
                     })
                     .collect()
             });
+            // MeCab writes `BIGRAM B00:%L[..]/%R[..]`: only the left half carries the literal prefix. A third of the
+            // templates follow that style when their right half has at least two references (a bare half with a single
+            // reference expands to a feature that is literally `*` or empty: open finding of C16, excluded by construction).
+            let bi: Vec<(String, String)> = bi
+                .into_iter()
+                .enumerate()
+                .map(|(j, (l, r))| {
+                    let bare = r.split_once(':').map(|(_, rest)| rest.to_string()).filter(|rest| rest.contains(',') && (j + usize::from(max_iter)) % 3 == 0);
+                    (l, bare.unwrap_or(r))
+                })
+                .collect();
             TrainSpec {
                 lex,
                 cats,
